@@ -70,6 +70,30 @@ def make_sym(ast, flags, maxlen):
     return h
 
 
+def make_abc(ast, maxlen):
+    pattern = RR.render(ast)
+    abc = ["a", "b", "c"]
+
+    def h(n_, i0, i1, i2, i3, i4):
+        pre(0 <= n_ <= maxlen)
+        idx = [i0, i1, i2, i3, i4]
+        chars = []
+        for j in range(5):
+            if j < n_:
+                pre(0 <= idx[j] < 3)
+                ch = None
+                for k in range(3):
+                    if idx[j] == k:
+                        ch = abc[k]
+                chars.append(ch)
+            else:
+                pre(idx[j] == 0)
+        with NoTracing():
+            return compare(ast, pattern, "", "".join(chars))
+    h.__annotations__ = {"n_": int, "i0": int, "i1": int, "i2": int, "i3": int, "i4": int, "return": bool}
+    return h
+
+
 def make_icase(ast, maxlen):
     pattern = RR.render(ast)
     n = len(I_ALPHABET)
@@ -137,6 +161,14 @@ def harnesses():
                               bounds=["pattern /%s/" % pat, "subject: every string of length <= 4 over all code points"],
                               per_path=60, budget=900, tier="thorough", require=("judged",), group="core patterns len 4",
                               functions=FNS))
+    for i, ast in enumerate(G.deep_patterns()):
+        pat = RR.render(ast)
+        hs.append(Harness(id="C09.deep.%03d" % i, fn=make_abc(ast, 5),
+                          bounds=["pattern /%s/" % pat, "subject: every string of length <= 5 over {a, b, c} (solver-chosen indices)"],
+                          per_path=30, budget=300, require=("judged",), group="deep patterns", functions=FNS))
+        hs.append(Harness(id="C09.deep-sym.%03d" % i, fn=make_sym(ast, "", 4),
+                          bounds=["pattern /%s/" % pat, "subject: every string of length <= 4 over all code points"],
+                          per_path=60, budget=900, require=("judged",), group="deep patterns", functions=FNS, tier="thorough"))
     rnd = G.random_patterns(1000 + seed, 120)
     for i, ast in enumerate(rnd):
         pat = RR.render(ast)
